@@ -256,11 +256,11 @@ func init() {
 			}
 			ne := 300
 			if g.thorough() {
-				ne = 6000
+				ne = 40000
 			}
 			for i := 0; i < ne; i++ {
 				seed := int64(g.r.next() >> 1)
-				depth := 1 + g.r.intn(6)
+				depth := 1 + g.r.intn(7)
 				e := genExprAST(rand.New(rand.NewSource(seed)), depth)
 				g.emit("expr", fmt.Sprint(seed), fmt.Sprint(depth), dumpAST(e, false))
 			}
